@@ -13,6 +13,7 @@ package c26
 
 import (
 	"context"
+	"bytes"
 	"encoding/binary"
 	"encoding/json"
 	"fmt"
@@ -53,6 +54,7 @@ type RangeCase struct {
 type Case struct {
 	Setup   []string    `json:"setup"`
 	Commit  bool        `json:"commit"`
+	Commit2 bool        `json:"commit2"` // commit the later changes too (HEAD~1 is then the first commit)
 	Later   []string    `json:"later"`
 	Queries []Query     `json:"queries"`
 	Ranges  []RangeCase `json:"ranges"`
@@ -66,6 +68,8 @@ type QOut struct {
 	RefN   int        `json:"ref_n"`
 	Plan   string     `json:"plan"`
 	Ita    bool       `json:"ita"`
+	PAlias []string   `json:"palias"` // table aliases in plan order (first = the join iterator's left side)
+	PIndex []string   `json:"pindex"` // "index: [...]" entries of the plan's IndexedTableAccess nodes, in plan order
 }
 
 type BoundOut struct {
@@ -86,6 +90,7 @@ type ROut struct {
 	Contig   bool       `json:"contig"`
 	Skip     bool       `json:"skip"`
 	Nullable []bool     `json:"nullable"`
+	Bits     []int      `json:"bits"` // width of each key field's signed integer encoding
 	All      [][]*int64 `json:"all"`
 	Visit    [][]*int64 `json:"visit"`
 }
@@ -246,12 +251,13 @@ func doltRows(s *util.Session, q string) (rows []sql.Row, err error) {
 	return rows, iter.Close(s.Ctx)
 }
 
-func planOf(s *util.Session, q string) (string, bool) {
+func planOf(s *util.Session, q string) (plan string, ita bool, aliases []string, indexes []string) {
+	aliases, indexes = []string{}, []string{}
 	rows, err := doltRows(s, "explain plan "+q)
 	if err != nil {
 		rows, err = doltRows(s, "explain "+q)
 		if err != nil {
-			return "err", false
+			return "err", false, aliases, indexes
 		}
 	}
 	var sb strings.Builder
@@ -260,18 +266,32 @@ func planOf(s *util.Session, q string) (string, bool) {
 		sb.WriteString("\n")
 	}
 	t := sb.String()
-	ita := strings.Contains(t, "IndexedTableAccess")
+	for _, line := range strings.Split(t, "\n") {
+		if i := strings.Index(line, "TableAlias("); i >= 0 {
+			rest := line[i+len("TableAlias("):]
+			if j := strings.Index(rest, ")"); j >= 0 {
+				aliases = append(aliases, rest[:j])
+			}
+		}
+		if i := strings.Index(line, "index: ["); i >= 0 {
+			rest := line[i+len("index: ["):]
+			if j := strings.Index(rest, "]"); j >= 0 {
+				indexes = append(indexes, rest[:j])
+			}
+		}
+	}
+	ita = strings.Contains(t, "IndexedTableAccess")
 	switch {
 	case strings.Contains(t, "MergeJoin"):
-		return "merge", ita
+		return "merge", ita, aliases, indexes
 	case strings.Contains(t, "LookupJoin"):
-		return "lookup", ita
+		return "lookup", ita, aliases, indexes
 	case strings.Contains(t, "HashJoin"):
-		return "hash", ita
+		return "hash", ita, aliases, indexes
 	case strings.Contains(t, "Join"):
-		return "join", ita
+		return "join", ita, aliases, indexes
 	}
-	return "none", ita
+	return "none", ita, aliases, indexes
 }
 
 func mkCut(c []any, typ sql.Type) (sql.MySQLRangeCut, error) {
@@ -290,14 +310,28 @@ func mkCut(c []any, typ sql.Type) (sql.MySQLRangeCut, error) {
 		if len(c) < 2 {
 			return nil, fmt.Errorf("cut without key")
 		}
-		f, ok := c[1].(float64)
-		if !ok {
+		var f int64
+		switch n := c[1].(type) {
+		case json.Number:
+			v, err := n.Int64()
+			if err != nil {
+				return nil, err
+			}
+			f = v
+		case float64:
+			f = int64(n)
+		default:
 			return nil, fmt.Errorf("cut key not a number")
 		}
-		if k == "b" {
-			return sql.Below{Key: int32(f), Typ: typ}, nil
+		// the key in the column's own Go type, as the engine's index builder hands it over
+		key, _, err := typ.Convert(context.Background(), f)
+		if err != nil {
+			return nil, err
 		}
-		return sql.Above{Key: int32(f), Typ: typ}, nil
+		if k == "b" {
+			return sql.Below{Key: key, Typ: typ}, nil
+		}
+		return sql.Above{Key: key, Typ: typ}, nil
 	}
 	return nil, fmt.Errorf("unknown cut %q", k)
 }
@@ -306,11 +340,19 @@ func int32Field(b []byte) *int64 {
 	if b == nil {
 		return nil
 	}
-	if len(b) != 4 {
-		x := int64(-999999999)
-		return &x
+	var x int64
+	switch len(b) {
+	case 1:
+		x = int64(int8(b[0]))
+	case 2:
+		x = int64(int16(binary.LittleEndian.Uint16(b)))
+	case 4:
+		x = int64(int32(binary.LittleEndian.Uint32(b)))
+	case 8:
+		x = int64(binary.LittleEndian.Uint64(b))
+	default:
+		x = -999999999
 	}
-	x := int64(int32(binary.LittleEndian.Uint32(b)))
 	return &x
 }
 
@@ -337,7 +379,7 @@ func drain(ctx context.Context, kd *val.TupleDesc, it prolly.MapIter) ([][]*int6
 }
 
 func runRange(s *util.Session, rc RangeCase) (out ROut) {
-	out.Fields, out.Tup, out.All, out.Visit, out.Nullable = []FieldOut{}, []*int64{}, [][]*int64{}, [][]*int64{}, []bool{}
+	out.Fields, out.Tup, out.All, out.Visit, out.Nullable, out.Bits = []FieldOut{}, []*int64{}, [][]*int64{}, [][]*int64{}, []bool{}, []int{}
 	defer func() {
 		if p := recover(); p != nil {
 			out.Err = fmt.Sprintf("PANIC: %v", p)
@@ -410,8 +452,17 @@ func runRange(s *util.Session, rc RangeCase) (out ROut) {
 	kd := m.KeyDesc()
 	for _, t := range kd.Types {
 		out.Nullable = append(out.Nullable, t.Nullable)
-		if t.Enc != val.Int32Enc {
-			out.Err = "non-int32 key field"
+		switch t.Enc {
+		case val.Int8Enc:
+			out.Bits = append(out.Bits, 8)
+		case val.Int16Enc:
+			out.Bits = append(out.Bits, 16)
+		case val.Int32Enc:
+			out.Bits = append(out.Bits, 32)
+		case val.Int64Enc:
+			out.Bits = append(out.Bits, 64)
+		default:
+			out.Err = "key field is not a signed integer"
 			return
 		}
 	}
@@ -461,7 +512,9 @@ func runRange(s *util.Session, rc RangeCase) (out ROut) {
 
 func Run(raw json.RawMessage) (any, error) {
 	var c Case
-	if err := json.Unmarshal(raw, &c); err != nil {
+	dec := json.NewDecoder(bytes.NewReader(raw))
+	dec.UseNumber() // 64-bit cut keys exactly
+	if err := dec.Decode(&c); err != nil {
 		return nil, err
 	}
 	env, err := util.NewEnv(false)
@@ -490,8 +543,10 @@ func Run(raw json.RawMessage) (any, error) {
 		}
 	}
 	if c.Commit {
-		if r := s.Exec("call dolt_commit('-Am','c1')"); r.Err != "" {
-			return fail("commit", fmt.Errorf("%s", r.Err))
+		for _, q := range []string{"call dolt_commit('--allow-empty','-Am','c1')", "call dolt_tag('v1')", "call dolt_branch('b1')"} {
+			if r := s.Exec(q); r.Err != "" {
+				return fail(q, fmt.Errorf("%s", r.Err))
+			}
 		}
 	}
 	for _, q := range c.Later {
@@ -500,6 +555,11 @@ func Run(raw json.RawMessage) (any, error) {
 		}
 		if _, err := ref.exec("cur", q); err != nil {
 			return fail("ref "+q, err)
+		}
+	}
+	if c.Commit && c.Commit2 {
+		if r := s.Exec("call dolt_commit('--allow-empty','-Am','c2')"); r.Err != "" {
+			return fail("commit2", fmt.Errorf("%s", r.Err))
 		}
 	}
 	for _, q := range c.Queries {
@@ -531,7 +591,7 @@ func Run(raw json.RawMessage) (any, error) {
 				qo.RefEq = qo.Err == "" && sameRows(qo.Rows, rc, q.Ord)
 			}
 		}
-		qo.Plan, qo.Ita = planOf(s, q.Q)
+		qo.Plan, qo.Ita, qo.PAlias, qo.PIndex = planOf(s, q.Q)
 		o.Queries = append(o.Queries, qo)
 	}
 	for _, rc := range c.Ranges {
